@@ -550,6 +550,21 @@ namespace hv
         }
     };
 
+    // holds a reference and publishes it AGAIN on every trigger tick (and when the reference itself changes): a producer that does
+    // not de-duplicate - "republishing an unchanged reference causes no tick" has to be realised below it (C13)
+    template <typename Sch>
+    struct VRepublish
+    {
+        static constexpr auto name = "v_republish";
+        HV_LIFECYCLE
+        static void eval(In<"ts", REF<Sch>> ts, In<"trigger", TS<Int>> trigger, Scalar<"uid", Int> uid, NodeView nv, DateTime now,
+                         Out<REF<Sch>> out)
+        {
+            out.set(ts.value());
+            log_eval(uid.value(), nv, now, trigger.modified() ? Int{1} : Int{0}, trigger);
+        }
+    };
+
     // tick-driven mirror (active input) and clock-driven probe (passive input)
     template <typename Sch>
     struct CMirror
